@@ -43,7 +43,7 @@ type Case struct {
 // known findings live (see known_findings.json, "excluded by construction"); the search stays
 // out of them so that it can go on behind those findings (VERIF_C01_FEATURES forces a set, for triage).
 var coreFeatures = []string{"untyped", "schema-defaults", "examples", "x-nullable", "readonly", "minmaxprops", "schema-formats", "depth3", "file", "missing-opids", "tags", "meta", "security", "op-consumes", "polymorphism", "go-extensions"}
-var frontierFeatures = []string{"cli-unrestricted", "ulid-format", "x-nullable-on-containers", "alias-of-escaped-name", "tuples", "x-go-name-on-object", "recursive-container", "flag-strategy-flag", "allof", "param-formats", "param-x-go-name", "poly-array-response", "expand-recursive", "expand-polymorphism", "alias-of-map", "nested-map-enum", "prop-named-as-definition", "hard-names-unfiltered"}
+var frontierFeatures = []string{"formatted-primitive-definition", "addl-props-ref-to-map", "cli-unrestricted", "ulid-format", "x-nullable-on-containers", "alias-of-escaped-name", "tuples", "x-go-name-on-object", "recursive-container", "flag-strategy-flag", "allof", "param-formats", "param-x-go-name", "poly-array-response", "expand-recursive", "expand-polymorphism", "alias-of-map", "nested-map-enum", "prop-named-as-definition", "hard-names-unfiltered"}
 var featureList = append(append([]string{}, coreFeatures...), frontierFeatures...)
 
 func hasLetter(s string) bool {
@@ -174,8 +174,16 @@ func knownBad(kind, s string) string {
 		if !isASCII(s) {
 			return "non-ascii-parameter-name"
 		}
-		if clientParamMethods[k] {
+		if clientParamMethods[k] || predeclared[strings.ToLower(s)] {
 			return "parameter-named-like-template-identifier"
+		}
+		for _, r := range s {
+			if unicode.IsDigit(r) {
+				return "parameter-leading-digit"
+			}
+			if unicode.IsLetter(r) {
+				break
+			}
 		}
 		if kind == "path-parameter" && (k == "url" || k == "errors" || predeclared[strings.ToLower(s)] || goKeywords[strings.ToLower(s)] || strings.Contains(s, `"`)) {
 			return "path-parameter-named-like-template-identifier"
@@ -229,6 +237,9 @@ func (n *namer) draw(t *rapid.T, label, kind, ns string, ok func(string) bool) s
 			rule := knownBad(kind, s)
 			if rule == "" && n.asciiProps && (kind == "property" || kind == "definition") && !isASCII(s) {
 				rule = "cli-non-ascii-name"
+			}
+			if rule == "" && n.asciiProps && strings.ContainsAny(s, "\"\\`") {
+				rule = "cli-quote-in-name"
 			}
 			if rule == "" && n.asciiProps && kind == "tag" && cliImports[mangleKey(s)] {
 				rule = "cli-tag-named-like-import"
@@ -567,6 +578,42 @@ func sanitize(doc J, feats map[string]bool, flatten string) {
 			case "string", "integer", "number", "boolean":
 			default:
 				delete(o, "x-nullable")
+			}
+		})
+	}
+	if !feats["formatted-primitive-definition"] {
+		// a definition that is a formatted string: used as array item of an inline schema, its validation calls a String method the named type lacks
+		for _, n := range work.SortedKeys(defs) {
+			if d, ok := defs[n].(J); ok && d["type"] == "string" {
+				delete(d, "format")
+			}
+		}
+	}
+	if !feats["addl-props-ref-to-map"] {
+		// object with properties whose additionalProperties is a $ref to a map definition: ContextValidate ranges with an unused key
+		isMapDef := func(r any) bool {
+			rs, ok := r.(string)
+			if !ok {
+				return false
+			}
+			t, _ := defs[strings.TrimPrefix(rs, "#/definitions/")].(J)
+			for hops := 0; t != nil && hops < 10; hops++ {
+				if nr, ok := t["$ref"].(string); ok {
+					t, _ = defs[strings.TrimPrefix(nr, "#/definitions/")].(J)
+					continue
+				}
+				break
+			}
+			if t == nil {
+				return false
+			}
+			_, hasProps := t["properties"]
+			return t["type"] == "object" && !hasProps
+		}
+		walk(doc, func(o J) {
+			ap, ok := o["additionalProperties"].(J)
+			if _, hasProps := o["properties"]; ok && hasProps && isMapDef(ap["$ref"]) {
+				o["additionalProperties"] = J{"type": "string"}
 			}
 		})
 	}
